@@ -4,6 +4,7 @@
 id=$1; shift
 props="$id $*"
 cd /verif
+export VERIF_EVIDENCE_DIR=/var/tmp/anemo-verif-matrix/evidence VERIF_REPLAY_DIR=/var/tmp/anemo-verif-matrix/replays; mkdir -p $VERIF_EVIDENCE_DIR $VERIF_REPLAY_DIR
 for k in 1 2 3 4; do
   pf=/tmp/wt/N$id-out/$k/patch.diff; [ -f $pf ] || pf=/verif/neutral/$id-$k/patch.diff
   [ -f $pf ] || continue
